@@ -90,4 +90,69 @@ FileInter(before, ev, P) ==
 FileSafe(before, ev, P, seen)       == P.dom => \A i \in DOMAIN seen : seen[i] \in FileInter(before, ev, P)
 FileConverged(before, ev, P, final) == P.dom => final \in FileFinal(before, ev, P)
 
+
+---------------------------------------------------------------------------
+(* WIRE FORMAT OF HOT-SPOT SPECIFIC ITEMS.  A rule list written in the JSON  *)
+(* wire format decodes to exactly the rules it describes - including the     *)
+(* KEYS and thresholds of specificItems.  An item is a (kind, text,          *)
+(* threshold) triple; its key is the TYPED VALUE the (kind, text) pair       *)
+(* denotes: kind 0 the int, 1 the string itself, 2 the bool, 3 the float64   *)
+(* normalised to five decimal places (documented).  The scenario states the  *)
+(* denoted value structurally (the text is one of its spellings):            *)
+(*    [kind |-> 0, neg, dig]           an integer: sign and decimal digits   *)
+(*    [kind |-> 1, s]                  a string                              *)
+(*    [kind |-> 2, s]                  a bool in one of strconv's spellings  *)
+(*    [kind |-> 3, neg, dig, e]        the decimal 0.d1 d2 .. dn x 10^e      *)
+(*                                     (d1, dn # 0; << >> = zero)            *)
+(* and the driver reports every decoded key in the same form                 *)
+(*    [t |-> "int" | "string" | "bool" | "float", neg, dig, e, s, b, thr].   *)
+
+RECURSIVE StripZ(_)
+StripZ(d) == IF d = << >> THEN d ELSE IF d[Len(d)] = 0 THEN StripZ(SubSeq(d, 1, Len(d) - 1)) ELSE d
+\* one unit more in the last place (a carry out of the first place makes the sequence one digit longer)
+RECURSIVE IncSeq(_)
+IncSeq(d) == IF d = << >> THEN <<1>>
+             ELSE IF d[Len(d)] < 9 THEN [d EXCEPT ![Len(d)] = @ + 1]
+             ELSE Append(IncSeq(SubSeq(d, 1, Len(d) - 1)), 0)
+DecZero == [neg |-> FALSE, dig |-> << >>, e |-> 0]
+Dec(neg, dig, e) == IF StripZ(dig) = << >> THEN DecZero ELSE [neg |-> neg, dig |-> StripZ(dig), e |-> e]
+\* the decimals a value may be normalised to when it is rounded to five decimal places (both neighbours on an exact tie:
+\* the binary value the text was read into lies on one side of it)
+Round5(v) ==
+    IF v.dig = << >> THEN {DecZero}
+    ELSE LET n == Len(v.dig)
+             k == v.e + 5                      \* digits in front of the sixth decimal place
+         IN  IF k >= n THEN {Dec(v.neg, v.dig, v.e)}
+             ELSE IF k < 0 THEN {DecZero}
+             ELSE LET keep == SubSeq(v.dig, 1, k)
+                      up   == IncSeq(keep)
+                      lo   == Dec(v.neg, keep, v.e)
+                      hi   == Dec(v.neg, up, v.e + (Len(up) - k))
+                  IN  IF v.dig[k + 1] < 5 THEN {lo}
+                      ELSE IF v.dig[k + 1] > 5 \/ k + 1 < n THEN {hi}
+                      ELSE {lo, hi}
+BoolTrue  == {"1", "t", "T", "TRUE", "true", "True"}
+BoolFalse == {"0", "f", "F", "FALSE", "false", "False"}
+Key(t, neg, dig, e, str, b) == [t |-> t, neg |-> neg, dig |-> dig, e |-> e, s |-> str, b |-> b]
+\* the keys item `it' may decode to
+DescribedKeys(it) ==
+    CASE it.kind = 0 -> {Key("int", it.neg /\ it.dig # << >>, it.dig, 0, "", FALSE)}
+      [] it.kind = 1 -> {Key("string", FALSE, << >>, 0, it.s, FALSE)}
+      [] it.kind = 2 -> IF it.s \in BoolTrue \cup BoolFalse THEN {Key("bool", FALSE, << >>, 0, "", it.s \in BoolTrue)} ELSE {}
+      [] it.kind = 3 -> {Key("float", r.neg, r.dig, r.e, "", FALSE) : r \in Round5([neg |-> it.neg, dig |-> it.dig, e |-> it.e])}
+KeyOfGot(g) == Key(g.t, g.neg, g.dig, g.e, g.s, g.b)
+\* the decoded map `got' (a sequence of reported entries) is exactly what the item list describes (a later item with the
+\* same key replaces an earlier one)
+ItemsOK(items, got) ==
+    /\ \A i \in DOMAIN items : \E j \in DOMAIN got :
+           /\ KeyOfGot(got[j]) \in DescribedKeys(items[i])
+           /\ (got[j].thr = items[i].thr \/ \E i2 \in (i + 1)..Len(items) : KeyOfGot(got[j]) \in DescribedKeys(items[i2]))
+    /\ \A j \in DOMAIN got : \E i \in DOMAIN items : KeyOfGot(got[j]) \in DescribedKeys(items[i]) /\ got[j].thr = items[i].thr
+    /\ \A j, j2 \in DOMAIN got : j # j2 => KeyOfGot(got[j]) # KeyOfGot(got[j2])
+\* probe traffic: n = thr + 1 requests at one instant whose argument IS the described value: exactly thr are admitted
+\* (the item's own threshold limits it, not the rule's general one) - demanded where no other item can share its key
+ItemProbeOK(items, p) ==
+    LET it == items[p.i] IN
+    (\A i2 \in DOMAIN items : i2 # p.i => DescribedKeys(items[i2]) \cap DescribedKeys(it) = {}) => p.adm = it.thr
+
 =============================================================================
